@@ -21,7 +21,7 @@ Ltac inv_step H :=
   try discriminate H;
   match type of H with Some _ = Some ?b => (injection H as H; subst b) end.
 
-Ltac red_proj := cbn [cp bp ch done vgate gates log] in *.
+Ltac red_proj := cbn [cp bp ch done vgate gates log errs] in *.
 
 Lemma run_app : forall s ls s1 ls' s2, run s ls s1 -> run s1 ls' s2 -> run s (ls ++ ls') s2.
 Proof.
@@ -93,7 +93,7 @@ Qed.
 
 Definition good_resp' (g : list bool) (v : option bool) (r : resp) : Prop :=
   match r with
-  | RespFull outs => length outs = n /\ (exists rest, g = outs ++ rest) /\ v = Some true
+  | RespFull outs e => length outs = n /\ (exists rest, g = outs ++ rest) /\ v = Some true /\ e = errors_of outs
   | RespVarErr => v = Some false
   end.
 Notation good_resp s := (good_resp' (gates s) (vgate s)).
@@ -101,12 +101,12 @@ Definition returned' (c : cpc) : bool := match c with CReturned _ => true | _ =>
 
 Definition inv (s : st) : Prop :=
   length (gates s) <= n /\
-  (exists rest, gates s = log s ++ rest) /\
+  ((exists rest, gates s = log s ++ rest) /\ errs s = errors_of (log s)) /\
   match bp s with
   | BNone => ch s = [] /\ (cp s = CIdle \/ cp s = CInit) /\ log s = []
   | BVars => ch s = [] /\ log s = []
   | BRun k => ch s = [] /\ length (log s) = k /\ k <= n /\ vgate s = Some true
-  | BFinish r => ch s = [] /\ good_resp s r /\ match r with RespFull outs => outs = log s | RespVarErr => True end
+  | BFinish r => ch s = [] /\ good_resp s r /\ match r with RespFull outs _ => outs = log s | RespVarErr => True end
   | BExit => (returned' (cp s) = false -> exists r, ch s = [r]) /\ (returned' (cp s) = true -> length (ch s) <= 1)
   end /\
   Forall (good_resp s) (ch s) /\
@@ -120,27 +120,34 @@ Definition inv (s : st) : Prop :=
 Lemma good_resp_gates : forall g v g' v' r, v' = v \/ v = None ->
   (exists t, g' = g ++ t) -> good_resp' g v r -> good_resp' g' v' r.
 Proof.
-  intros g v g' v' [outs|] Hv (t & Hg) H; cbn in *.
-  - destruct H as (L & (rest & E) & V). split; [exact L|]. split; [exists (rest ++ t); rewrite Hg, E, app_assoc; reflexivity|].
-    destruct Hv as [Hv|Hv]; congruence.
+  intros g v g' v' [outs e|] Hv (t & Hg) H; cbn in *.
+  - destruct H as (L & (rest & E) & V & Ee). split; [exact L|]. split; [exists (rest ++ t); rewrite Hg, E, app_assoc; reflexivity|].
+    split; [destruct Hv as [Hv|Hv]; congruence|exact Ee].
   - destruct Hv as [Hv|Hv]; congruence.
 Qed.
 
 Lemma inv_init : inv init.
 Proof. unfold inv; cbn. repeat split; try lia; auto. exists []. reflexivity. Qed.
 
+Lemma errors_from_snoc : forall l k o, errors_from k (l ++ [o]) = errors_from k l ++ (if o then [] else [k + length l]).
+Proof.
+  induction l as [|a l IH]; intros k o; cbn.
+  - destruct o; cbn; [reflexivity|rewrite Nat.add_0_r; reflexivity].
+  - destruct a; rewrite IH; cbn; rewrite Nat.add_succ_r; reflexivity.
+Qed.
+
 Lemma inv_step : forall s l s', inv s -> step s l s' -> inv s'.
 Proof.
-  intros s l s' (Ig & (rest & Il) & Ib & Ic & Ip) H. unfold inv.
+  intros s l s' (Ig & ((rest & Il) & Ie) & Ib & Ic & Ip) H. unfold inv.
   destruct l; inv_step H; red_proj.
   - (* LCall *) rewrite Ip in *. destruct Ib as (I1 & I2 & I3).
-    split; [exact Ig|]. split; [exists rest; exact Il|]. split; [repeat split; auto|]. split; [exact Ic|reflexivity].
-  - (* LDone *) split; [exact Ig|]. split; [exists rest; exact Il|]. split; [exact Ib|]. split; [exact Ic|].
+    split; [exact Ig|]. split; [split; [exists rest; exact Il|exact Ie]|]. split; [repeat split; auto|]. split; [exact Ic|reflexivity].
+  - (* LDone *) split; [exact Ig|]. split; [split; [exists rest; exact Il|exact Ie]|]. split; [exact Ib|]. split; [exact Ic|].
     destruct (cp s) as [| | |[r|]]; auto.
   - (* LOpenVars *)
     assert (G : forall r, good_resp' (gates s) None r -> good_resp' (gates s) (Some ok) r).
     { intros r. apply good_resp_gates; [right; reflexivity|exists []; rewrite app_nil_r; reflexivity]. }
-    split; [exact Ig|]. split; [exists rest; exact Il|]. split.
+    split; [exact Ig|]. split; [split; [exists rest; exact Il|exact Ie]|]. split.
     + destruct (bp s) as [| |k|r|]; auto.
       * destruct Ib as (I1 & I2 & I3 & I4). discriminate I4.
       * destruct Ib as (I1 & I2 & I3). split; [exact I1|]. split; [apply G; exact I2|exact I3].
@@ -150,45 +157,53 @@ Proof.
     apply Nat.ltb_lt in Heqb.
     assert (G : forall r, good_resp' (gates s) (vgate s) r -> good_resp' (gates s ++ [o]) (vgate s) r).
     { intros r. apply good_resp_gates; [left; reflexivity|exists [o]; reflexivity]. }
-    split; [rewrite app_length; cbn; lia|]. split; [exists (rest ++ [o]); rewrite Il at 1; rewrite app_assoc; reflexivity|]. split.
+    split; [rewrite app_length; cbn; lia|]. split; [split; [exists (rest ++ [o]); rewrite Il at 1; rewrite app_assoc; reflexivity|exact Ie]|]. split.
     + destruct (bp s) as [| |k|r|]; auto.
       destruct Ib as (I1 & I2 & I3). repeat split; auto.
     + split; [eapply Forall_impl; [|exact Ic]; exact G|].
       destruct (cp s) as [| | |[r|]]; auto.
   - (* LSpawn *) destruct Ib as (I1 & I2 & I3).
-    split; [exact Ig|]. split; [exists rest; exact Il|]. split; [split; assumption|]. split; [exact Ic|]. discriminate.
+    split; [exact Ig|]. split; [split; [exists rest; exact Il|exact Ie]|]. split; [split; assumption|]. split; [exact Ic|]. discriminate.
   - (* LRetCtx *)
-    split; [exact Ig|]. split; [exists rest; exact Il|]. split.
+    split; [exact Ig|]. split; [split; [exists rest; exact Il|exact Ie]|]. split.
     + destruct (bp s) as [| |k|r|]; auto; try contradiction.
       destruct Ib as (I1 & I2). cbn [returned']. split; [discriminate|].
       intros _. destruct (I1 eq_refl) as (r & E). rewrite E. cbn. lia.
     + split; [exact Ic|reflexivity].
   - (* LRetRes *) inversion Ic as [|? ? G1 G2]; subst.
-    split; [exact Ig|]. split; [exists rest; exact Il|]. split.
+    split; [exact Ig|]. split; [split; [exists rest; exact Il|exact Ie]|]. split.
     + destruct (bp s) as [| |k|r0|]; try (destruct Ib as (I1 & _); discriminate I1).
       destruct Ib as (I1 & I2). cbn [returned']. split; [discriminate|].
       intros _. destruct (I1 eq_refl) as (r1 & E). inversion E; subst. cbn. lia.
     + split; [exact G2|exact G1].
   - (* LVars ok *) destruct Ib as (I1 & I2).
-    split; [exact Ig|]. split; [exists rest; exact Il|]. split; [repeat split; auto; [rewrite I2; reflexivity|lia]|].
+    split; [exact Ig|]. split; [split; [exists rest; exact Il|exact Ie]|]. split; [repeat split; auto; [rewrite I2; reflexivity|lia]|].
     split; [exact Ic|]. destruct (cp s) as [| | |[r|]]; auto; try discriminate Ip; intros X; discriminate X.
   - (* LVars fails *) destruct Ib as (I1 & I2).
-    split; [exact Ig|]. split; [exists rest; exact Il|]. split; [repeat split; auto|].
+    split; [exact Ig|]. split; [split; [exists rest; exact Il|exact Ie]|]. split; [repeat split; auto|].
     split; [exact Ic|]. destruct (cp s) as [| | |[r|]]; auto; try discriminate Ip; intros X; discriminate X.
-  - (* LResolve *) destruct Ib as (I1 & I2 & I3 & I4). apply Nat.ltb_lt in Heqb0.
-    assert (Er : exists rest', rest = b :: rest').
+  - (* LResolve *) subst b. destruct Ib as (I1 & I2 & I3 & I4). apply Nat.ltb_lt in Heqb0.
+    assert (Er : exists rest', rest = true :: rest').
     { rewrite Il in Heqo. rewrite nth_error_app2 in Heqo by lia. rewrite I2, Nat.sub_diag in Heqo.
       destruct rest as [|x r]; cbn in Heqo; [discriminate|]. inversion Heqo; subst. exists r. reflexivity. }
     destruct Er as (rest' & Er). subst rest.
-    split; [exact Ig|]. split; [exists rest'; rewrite Il, <- app_assoc; reflexivity|].
+    split; [exact Ig|]. split; [split; [exists rest'; rewrite Il, <- app_assoc; reflexivity|unfold errors_of; rewrite errors_from_snoc; unfold errors_of in Ie; rewrite Ie; try rewrite I2; cbn; try rewrite app_nil_r; reflexivity]|].
+    split; [split; [exact I1|]; split; [rewrite app_length, I2; cbn; lia|]; split; [lia|exact I4]|].
+    split; [exact Ic|]. destruct (cp s) as [| | |[r|]]; auto; try discriminate Ip; intros X; discriminate X.
+  - (* LResolve *) subst b. destruct Ib as (I1 & I2 & I3 & I4). apply Nat.ltb_lt in Heqb0.
+    assert (Er : exists rest', rest = false :: rest').
+    { rewrite Il in Heqo. rewrite nth_error_app2 in Heqo by lia. rewrite I2, Nat.sub_diag in Heqo.
+      destruct rest as [|x r]; cbn in Heqo; [discriminate|]. inversion Heqo; subst. exists r. reflexivity. }
+    destruct Er as (rest' & Er). subst rest.
+    split; [exact Ig|]. split; [split; [exists rest'; rewrite Il, <- app_assoc; reflexivity|unfold errors_of; rewrite errors_from_snoc; unfold errors_of in Ie; rewrite Ie; try rewrite I2; cbn; try rewrite app_nil_r; reflexivity]|].
     split; [split; [exact I1|]; split; [rewrite app_length, I2; cbn; lia|]; split; [lia|exact I4]|].
     split; [exact Ic|]. destruct (cp s) as [| | |[r|]]; auto; try discriminate Ip; intros X; discriminate X.
   - (* LAssemble *) destruct Ib as (I1 & I2 & I3 & I4). apply Nat.eqb_eq in Heqb0. subst k.
-    split; [exact Ig|]. split; [exists rest; exact Il|].
+    split; [exact Ig|]. split; [split; [exists rest; exact Il|exact Ie]|].
     split; [repeat split; auto; exists rest; exact Il|].
     split; [exact Ic|]. destruct (cp s) as [| | |[r|]]; auto; try discriminate Ip; intros X; discriminate X.
   - (* LSend *) destruct Ib as (I1 & I2 & I3). rewrite I1 in *. cbn [app].
-    split; [exact Ig|]. split; [exists rest; exact Il|].
+    split; [exact Ig|]. split; [split; [exists rest; exact Il|exact Ie]|].
     split; [split; [intros _; exists r; reflexivity|intros _; cbn; lia]|].
     split; [constructor; [exact I2|constructor]|].
     destruct (cp s) as [| | |[r0|]]; auto; try discriminate Ip; intros X; discriminate X.
@@ -208,13 +223,13 @@ Qed.
 Theorem two_outcomes : forall s r, reach s -> cp s = CReturned r ->
   match r with
   | RetCtx => done s = true
-  | RetResp (RespFull outs) => length outs = n /\ outs = gates s /\ vgate s = Some true
+  | RetResp (RespFull outs e) => length outs = n /\ outs = gates s /\ vgate s = Some true /\ e = errors_of outs
   | RetResp RespVarErr => vgate s = Some false
   end.
 Proof.
   intros s r R E. destruct (inv_reach s R) as (Ig & _ & _ & _ & Ip). rewrite E in Ip.
-  destruct r as [[outs|]|]; cbn in Ip; auto.
-  destruct Ip as (L & (rest & Eg) & V). split; [exact L|]. split; [eapply prefix_full; [exact Eg|lia]|exact V].
+  destruct r as [[outs e|]|]; cbn in Ip; auto.
+  destruct Ip as (L & (rest & Eg) & V & Ee). split; [exact L|]. split; [eapply prefix_full; [exact Eg|lia]|split; [exact V|exact Ee]].
 Qed.
 
 
@@ -225,7 +240,7 @@ Proof.
   intros s R D NR NI. destruct (inv_reach s R) as (_ & _ & _ & _ & Ip). unfold returned in NR.
   destruct (cp s) as [| | |r] eqn:E; try discriminate NR; [contradiction| |].
   - (* CInit: spawn, then the ctx arm *)
-    assert (S1 : step_fn s LSpawn = Some (mk CSelect BVars (ch s) (done s) (vgate s) (gates s) (log s)))
+    assert (S1 : step_fn s LSpawn = Some (mk CSelect BVars (ch s) (done s) (vgate s) (gates s) (log s) (errs s)))
       by (unfold CancelLts.step_fn; rewrite E, Ip; reflexivity).
     eexists [LSpawn; LRetCtx], _. split.
     + eapply run_cons; [exact S1|]. eapply run_cons; [|apply run_nil].
@@ -257,7 +272,7 @@ Proof.
               (fun s => returned s = true) lib) with (s := s) as (ls & s' & R' & F & G).
   - intros s1 l s2 (I & N1 & H1) Hl Hs. split; [eapply inv_step; eauto|].
     unfold released in *. destruct l; try discriminate Hl; inv_step Hs; red_proj; (split; [try discriminate; try assumption|]); auto.
-  - intros s1 ((Ig & (rest & Il) & Ib & Ic & Ip) & N1 & H1). unfold returned.
+  - intros s1 ((Ig & ((rest & Il) & Ie) & Ib & Ic & Ip) & N1 & H1). unfold returned.
     destruct (cp s1) as [| | |r] eqn:E; [contradiction| | |left; reflexivity]; right.
     + exists LSpawn. unfold CancelLts.step, CancelLts.step_fn. rewrite E, Ip. eexists. split; reflexivity.
     + destruct H1 as [D|(V & Gs)].
@@ -297,13 +312,28 @@ Qed.
 Notation orun := (orun n cap).
 Notation obs_run := (obs_run n cap).
 
-Lemma ret_eqb_eq : forall a b, ret_eqb a b = true -> a = b.
+Lemma list_eqb_eq : forall A (eqb : A -> A -> bool), (forall a b, eqb a b = true -> a = b) ->
+  forall x y, list_eqb eqb x y = true -> x = y.
 Proof.
-  assert (L : forall x y : list bool, list_eqb Bool.eqb x y = true -> x = y).
-  { induction x as [|a x IH]; destruct y as [|b y]; cbn; intros H; try discriminate H; [reflexivity|].
-    apply andb_true_iff in H. destruct H as (H1 & H2). apply eqb_prop in H1. f_equal; auto. }
-  intros [[x|]|] [[y|]|] H; cbn in H; try discriminate H; try reflexivity. f_equal. f_equal. apply L. exact H.
+  intros A eqb E. induction x as [|a x IH]; destruct y as [|b y]; cbn; intros H; try discriminate H; [reflexivity|].
+  apply andb_true_iff in H. destruct H as (H1 & H2). f_equal; [apply E; exact H1|apply IH; exact H2].
 Qed.
+Lemma list_eqb_refl : forall A (eqb : A -> A -> bool), (forall a, eqb a a = true) -> forall x, list_eqb eqb x x = true.
+Proof. intros A eqb E. induction x as [|a x IH]; cbn; [reflexivity|]. rewrite E, IH. reflexivity. Qed.
+
+Lemma resp_eqb_eq : forall a b, resp_eqb a b = true -> a = b.
+Proof.
+  intros [x e|] [y f|] H; cbn in H; try discriminate H; try reflexivity.
+  apply andb_true_iff in H. destruct H as (H1 & H2).
+  apply (list_eqb_eq _ _ eqb_prop) in H1. apply (list_eqb_eq _ Nat.eqb (fun a b => proj1 (Nat.eqb_eq a b))) in H2. subst. reflexivity.
+Qed.
+Lemma resp_eqb_refl : forall a, resp_eqb a a = true.
+Proof. intros [x e|]; cbn; [|reflexivity]. rewrite (list_eqb_refl _ _ eqb_reflx), (list_eqb_refl _ _ Nat.eqb_refl). reflexivity. Qed.
+
+Lemma ret_eqb_eq : forall a b, ret_eqb a b = true -> a = b.
+Proof. intros [x|] [y|] H; cbn in H; try discriminate H; try reflexivity. f_equal. apply resp_eqb_eq. exact H. Qed.
+Lemma ret_eqb_refl : forall a, ret_eqb a a = true.
+Proof. intros [x|]; cbn; [apply resp_eqb_refl|reflexivity]. Qed.
 
 Lemma dedup_incl : forall l x, In x (dedup l) -> In x l.
 Proof.
@@ -375,6 +405,98 @@ Proof.
   intros os H. unfold accepts_obs in H. destruct (obs_run [init] os) as [|s' r] eqn:E; [discriminate H|].
   destruct (obs_run_sound os [init] s') as (s & Is & O); [rewrite E; left; reflexivity|].
   destruct Is as [Is|[]]. subst s. exists s'. split; [exact O|]. apply orun_is_run in O. exact O.
+Qed.
+
+
+(* ---------- completeness of the acceptor ---------- *)
+Lemma cpc_eqb_eq : forall a b, cpc_eqb a b = true -> a = b.
+Proof. intros [| | |x] [| | |y] H; cbn in H; try discriminate H; try reflexivity. f_equal. apply ret_eqb_eq. exact H. Qed.
+Lemma bpc_eqb_eq : forall a b, bpc_eqb a b = true -> a = b.
+Proof.
+  intros [| |x|x|] [| |y|y|] H; cbn in H; try discriminate H; try reflexivity.
+  - apply Nat.eqb_eq in H. subst. reflexivity.
+  - f_equal. apply resp_eqb_eq. exact H.
+Qed.
+Lemma ob_eqb_eq : forall a b, ob_eqb a b = true -> a = b.
+Proof. intros [x|] [y|] H; cbn in H; try discriminate H; try reflexivity. apply eqb_prop in H. subst. reflexivity. Qed.
+
+Lemma st_eqb_eq : forall a b, st_eqb a b = true -> a = b.
+Proof.
+  intros [a1 a2 a3 a4 a5 a6 a7 a8] [b1 b2 b3 b4 b5 b6 b7 b8] H. unfold st_eqb in H. cbn [cp bp ch done vgate gates log errs] in H.
+  repeat (apply andb_true_iff in H; let H' := fresh "E" in destruct H as (H & H')).
+  apply cpc_eqb_eq in H. apply bpc_eqb_eq in E5. apply (list_eqb_eq _ _ resp_eqb_eq) in E4. apply eqb_prop in E3.
+  apply ob_eqb_eq in E2. apply (list_eqb_eq _ _ eqb_prop) in E1. apply (list_eqb_eq _ _ eqb_prop) in E0.
+  apply (list_eqb_eq _ Nat.eqb (fun a b => proj1 (Nat.eqb_eq a b))) in E. subst. reflexivity.
+Qed.
+
+Lemma dedup_complete : forall l x, In x l -> In x (dedup l).
+Proof.
+  induction l as [|y l IH]; intros x H; [contradiction|]. cbn.
+  destruct (existsb (st_eqb y) l) eqn:E.
+  - destruct H as [H|H]; [|apply IH; exact H]. subst y. apply existsb_exists in E. destruct E as (z & Iz & Ez).
+    apply st_eqb_eq in Ez. subst z. apply IH. exact Iz.
+  - destruct H as [H|H]; [left; exact H|right; apply IH; exact H].
+Qed.
+
+Lemma in_opt_list_intro : forall A (o : option A) x, o = Some x -> In x (opt_list o).
+Proof. intros A o x H. subst o. left. reflexivity. Qed.
+
+Lemma lib_in_labels : forall l, lib l = true -> In l lib_labels.
+Proof. intros l H. destruct l; try discriminate H; cbn; tauto. Qed.
+
+Lemma lib_closure_complete : forall ls fuel ss s s', In s ss -> run s ls s' -> Forall (fun l => lib l = true) ls ->
+  length ls <= fuel -> In s' (lib_closure n cap fuel ss).
+Proof.
+  induction ls as [|l ls IH]; intros fuel ss s s' Is R F L.
+  - inversion R; subst. destruct fuel; cbn; [exact Is|apply in_or_app; left; exact Is].
+  - inversion R as [|? ? s1 ? ? Hs R']; subst. inversion F as [|? ? Hl F']; subst.
+    destruct fuel as [|f]; [cbn in L; lia|]. cbn [CancelLts.lib_closure]. apply in_or_app. right.
+    apply (IH f _ s1 s'); [|exact R'|exact F'|cbn in L; lia].
+    apply dedup_complete. unfold lib_round. apply in_flat_map. exists s. split; [exact Is|].
+    apply in_flat_map. exists l. split; [apply lib_in_labels; exact Hl|apply in_opt_list_intro; exact Hs].
+Qed.
+
+Lemma measure_bound : forall s, measure s <= 2 * n + 9.
+Proof. intros s. unfold CancelLts.measure. destruct (cp s), (bp s); lia. Qed.
+
+Definition covers (ss : list st) (s : st) : Prop :=
+  exists s0 ls, In s0 ss /\ run s0 ls s /\ Forall (fun l => lib l = true) ls.
+
+Lemma covers_in_closure : forall ss s, covers ss s -> In s (dedup (lib_closure n cap (2 * n + 12) ss)).
+Proof.
+  intros ss s (s0 & ls & I0 & R & F). apply dedup_complete. apply (lib_closure_complete ls _ ss s0 s I0 R F).
+  pose proof (lib_run_bounded s0 ls s R F). pose proof (measure_bound s0). lia.
+Qed.
+
+Lemma run_snoc : forall s ls s1 l s2, run s ls s1 -> step s1 l s2 -> run s (ls ++ [l]) s2.
+Proof.
+  intros s ls s1 l s2 R Hs. eapply run_app; [exact R|]. eapply run_cons; [exact Hs|apply run_nil].
+Qed.
+
+Lemma orun_covers : forall s os s2, orun s os s2 -> forall ss, covers ss s -> covers (obs_run ss os) s2.
+Proof.
+  intros s os s2 O. induction O as [s|s l s1 os s2 Hl Hs O IH|s l s1 o os s2 He Hs O IH|s o os s2 Ho O IH]; intros ss C.
+  - exact C.
+  - apply IH. destruct C as (s0 & ls & I0 & R & F). exists s0, (ls ++ [l]). split; [exact I0|].
+    split; [eapply run_snoc; eauto|apply Forall_app; split; [exact F|constructor; [exact Hl|constructor]]].
+  - cbn [CancelLts.obs_run]. apply IH. exists s1, []. split; [|split; [apply run_nil|constructor]].
+    unfold obs_after. apply dedup_complete. apply in_flat_map. exists s. split; [apply covers_in_closure; exact C|].
+    unfold CancelLts.step in Hs. destruct l; cbn in He; try discriminate He; inversion He; subst o; cbn [obs_step];
+      apply in_opt_list_intro; exact Hs.
+  - cbn [CancelLts.obs_run]. apply IH. exists s, []. split; [|split; [apply run_nil|constructor]].
+    unfold obs_after. apply dedup_complete. apply in_flat_map. exists s. split; [apply covers_in_closure; exact C|].
+    destruct o; cbn in Ho; try contradiction; cbn [obs_step].
+    + rewrite Ho, ret_eqb_refl. left. reflexivity.
+    + rewrite Ho. left. reflexivity.
+    + rewrite Ho. left. reflexivity.
+Qed.
+
+Theorem accepts_obs_complete : forall os s, orun init os s -> accepts_obs n cap os = true.
+Proof.
+  intros os s O. unfold accepts_obs.
+  destruct (orun_covers init os s O [init]) as (x & ls & Ix & _).
+  - exists init, []. split; [left; reflexivity|split; [apply run_nil|constructor]].
+  - destruct (obs_run [init] os); [contradiction|reflexivity].
 Qed.
 
 End Proofs.
